@@ -65,6 +65,10 @@ fn run(args: &[String]) {
     let out = arg(args, "--out");
     let replays = arg(args, "--replays").unwrap_or_else(|| "/verif/out/replays".to_string());
     let uninit = flag(args, "--uninit");
+    let only_shard: Option<usize> = arg(args, "--only-shard").and_then(|s| s.parse().ok());
+    if flag(args, "--track-cases") {
+        watchdog::track_cases(true);
+    }
     mon::writers::set_uninit(uninit);
 
     let Some(entry) = mon::registry().into_iter().find(|e| e.id == prop) else {
@@ -92,6 +96,7 @@ fn run(args: &[String]) {
     let mut total = Ctx::new(prop, &distinct, seed, thorough, scale);
     let results: Vec<std::thread::Result<Ctx>> = std::thread::scope(|sc| {
         let hs: Vec<_> = (0..threads)
+            .filter(|sh| only_shard.map(|o| o == *sh).unwrap_or(true))
             .map(|shard| {
                 let d = &distinct;
                 let run = entry.run;
@@ -193,7 +198,7 @@ fn run(args: &[String]) {
     if !total.violation_counts.is_empty() {
         std::process::exit(1);
     }
-    if !floor_ok && scale >= 1.0 {
+    if !floor_ok && scale >= 1.0 && only_shard.is_none() {
         let missing: Vec<_> = floor.iter().filter(|f| !f.1).map(|f| f.0.clone()).collect();
         println!("INCONCLUSIVE property={prop} reason=observation-floor-not-met missing={}", missing.join(","));
         std::process::exit(2);
